@@ -154,3 +154,30 @@ Theorem C08_flat_htr : forall (H : chunk -> chunk -> chunk) (zh : nat -> chunk),
   flat_htr H zh t v = OK (spec_htr H t v).
 Proof. exact flat_htr_correct. Qed.
 Print Assumptions C08_flat_htr.
+
+(* ---- "... and therefore the same root as the tree-backed view of the same value": the flat
+   helpers give the Merkle root of any backing that represents the value ([repr], Repr.v), in
+   particular of the view built by the constructors ([from_val]); combines [C08_flat_htr] with
+   C01's [repr_root].  [no_bool_seq]: known finding D3 (List/Vector[bool] views hash unpacked). ---- *)
+From Ztyp Require Import Tree View Repr AgreeProofs.
+From Ztyp Require ReprProofs.
+
+Theorem C08_flat_root_is_view_root :
+  forall (H : chunk -> chunk -> chunk) (zh : nat -> chunk),
+  (forall d, zh d = zero_hash H d) ->
+  forall t v n,
+    wf_ty t = true -> small_params t = true -> ReprProofs.small_fields t = true ->
+    no_bool_seq t = true -> has_type v t = true -> repr zh t n v ->
+    flat_htr H zh t v = OK (root_of H n).
+Proof. exact flat_htr_is_view_root. Qed.
+Print Assumptions C08_flat_root_is_view_root.
+
+Theorem C08_flat_root_is_constructed_view_root :
+  forall (H : chunk -> chunk -> chunk) (zh : nat -> chunk),
+  (forall d, zh d = zero_hash H d) ->
+  forall t v,
+    wf_ty t = true -> small_params t = true -> ReprProofs.small_fields t = true ->
+    no_bool_seq t = true -> has_type v t = true ->
+    exists n, from_val zh t v = OK n /\ flat_htr H zh t v = OK (root_of H n).
+Proof. exact flat_htr_is_constructed_view_root. Qed.
+Print Assumptions C08_flat_root_is_constructed_view_root.
